@@ -16,6 +16,7 @@ import JsonV.Lemmas.FormatStrictL
 import JsonV.Lemmas.GlueTreeConverse
 import JsonV.Lemmas.GlueStrict
 import JsonV.Lemmas.FormatRespell
+import JsonV.Lemmas.GlueNameKey
 import JsonV.Props.C01
 import JsonV.Gen.Lits
 
@@ -216,7 +217,7 @@ theorem strict_strings (o : FOpts) (hu : o.allowInvalidUTF8 = false) (ts : List 
   intro raw hm
   simp only [tokensOK, Bool.and_eq_true, List.all_eq_true] at hk
   have := hk.1 _ hm
-  simp only [strOK, hu, Bool.false_or] at this
+  simp only [strOKV, hu, Bool.false_or] at this
   exact (strictStr_iff raw).mp this
 
 /-- **succeed iff valid** for the strict model: Format succeeds exactly when IsValid (same validation options)
@@ -269,7 +270,7 @@ theorem isValidV_congr (o o' : FOpts) (h1 : o.allowInvalidUTF8 = o'.allowInvalid
     (b : Bytes) : isValidV o b = isValidV o' b := by
   have hk : ∀ ts, tokensOK o ts = tokensOK o' ts := by
     intro ts
-    have hs : strOK o = strOK o' := by funext t; cases t <;> simp [strOK, h1]
+    have hs : strOKV o = strOKV o' := by funext t; cases t <;> simp [strOKV, h1]
     have hkey : nameKey o = nameKey o' := by funext raw; simp [nameKey, h1, h2]
     simp [tokensOK, hs, h2, hkey]
   unfold isValidV tokenizeV
@@ -311,7 +312,7 @@ theorem formatV_permissive (w : WsOpts) (b : Bytes) :
   have hk : ∀ ts, tokensOK { allowInvalidUTF8 := true, allowDup := true, preserve := true, ws := w } ts = true := by
     intro ts
     simp only [tokensOK, Bool.true_or, Bool.and_true, List.all_eq_true]
-    intro t _; cases t <;> simp [strOK]
+    intro t _; cases t <;> simp [strOKV]
   unfold formatV tokenizeV format
   cases tokenize b with
   | none => rfl
@@ -325,20 +326,20 @@ example : isValidV {} [0x22, 0x5c, 0x75, 0x64, 0x38, 0x30, 0x30, 0x22] = false :
 example : isValidV { allowInvalidUTF8 := true } [0x22, 0x5c, 0x75, 0x64, 0x38, 0x30, 0x30, 0x22] = true := by decide +kernel
 example : (⟨true, true, true, false, false, compactOpts⟩ : FOpts).verbatim := ⟨rfl, rfl, rfl⟩
 
-/-- **Meaning preserved and fixed point when strings are respelled** (any PreserveRawStrings, both validation
-options, no escape option — in particular `Value.Format()` with the default options): the output is accepted under
+/-- **Meaning preserved and fixed point when strings are respelled** (both validation options; every combination of
+PreserveRawStrings / EscapeForHTML / EscapeForJS except PreserveRawStrings together with an escape option — in
+particular `Value.Format()` with the default options, and with the escape options): the output is accepted under
 the same validation options, its tokens are the input tokens with every string respelled (ReformatString, slice
 C11: the RFC 8785 spelling of the same text), every string keeps its unquoted text, all other tokens are unchanged,
-and formatting the output again returns it unchanged.  With AllowDuplicateNames(false) the statement is relative to
-`NameKeyUnquote` (the name key of a literal is its unquoted text; a fact about C01's `unescapedName` not yet proved
-in slice wire); with AllowDuplicateNames(true) it is unconditional. -/
-theorem formatV_respell (o : FOpts) (hR : o.noEscape) (hw : o.ws.Blank) (hd : o.allowDup = true ∨ NameKeyUnquote)
+and formatting the output again returns it unchanged.  The hypothesis `NameKeyUnquote` (the name key of a literal is its
+unquoted text) is discharged by `nameKey_unquote` below: `formatV_respell_all` is the unconditional form. -/
+theorem formatV_respell (o : FOpts) (hR : o.respellable) (hw : o.ws.Blank) (hd : o.allowDup = true ∨ NameKeyUnquote)
     (b b' : Bytes) (h : formatV o b = some b') :
-    ∃ ts, tokenizeV o b = some ts ∧ tokenizeV o b' = some (ts.map (respell o)) ∧
+    ∃ ts, tokenizeV o b = some ts ∧ tokenizeV o b' = some (ts.map (respellTok o)) ∧
       (∀ k ∈ ts, match k with
-        | Tok.str raw => respell o k = .str (respellStr o raw) ∧
+        | Tok.str raw => respellTok o k = .str (respellStr o raw) ∧
             (Model.Wire.unquote (respellStr o raw)).1 = (Model.Wire.unquote raw).1
-        | k => respell o k = k) ∧
+        | k => respellTok o k = k) ∧
       formatV o b' = some b' := by
   unfold formatV at h
   cases ht : tokenizeV o b with
@@ -346,7 +347,7 @@ theorem formatV_respell (o : FOpts) (hR : o.noEscape) (hw : o.ws.Blank) (hd : o.
   | some ts =>
     simp only [ht, Option.some.injEq] at h
     obtain ⟨h1, h2, h3, h4⟩ := respell_tokens o hR hd b ts ht
-    have hb' : tokenizeV o b' = some (ts.map (respell o)) := by
+    have hb' : tokenizeV o b' = some (ts.map (respellTok o)) := by
       rw [← h]; exact tokenizeV_render' o o.ws hw _ h1 h2
     refine ⟨ts, rfl, hb', ?_, ?_⟩
     · intro k hk
@@ -357,13 +358,42 @@ theorem formatV_respell (o : FOpts) (hR : o.noEscape) (hw : o.ws.Blank) (hd : o.
       simp only [hb', h3, h]
 
 /-- the default options of `Value.Format` have no escape option -/
-example : ({} : FOpts).noEscape := ⟨rfl, rfl⟩
+example : ({} : FOpts).respellable := Or.inl ⟨rfl, rfl⟩
+example : ({ html := true, js := true } : FOpts).respellable := Or.inr rfl
 
-/-- the remaining hypothesis of `formatV_respell` under AllowDuplicateNames(false) -/
-def nameKey_unquote_full : Prop := NameKeyUnquote
+/-- For EVERY string option set (also PreserveRawStrings with an escape option) under strict UTF-8: each string of an
+accepted text keeps its unquoted text when respelled (slice C11's `reformat_meaning_strict`). -/
+theorem respell_string_meaning_strict (o : FOpts) (hu : o.allowInvalidUTF8 = false) (b : Bytes) (ts : List Tok)
+    (h : tokenizeV o b = some ts) (raw : Bytes) (hm : Tok.str raw ∈ ts) :
+    (Model.Wire.unquote (respellStr o raw)).1 = (Model.Wire.unquote raw).1 := by
+  have hj := strs_of_tokenizeV o b ts h raw hm
+  rw [hu] at hj
+  rw [wire_unquote_unqS, wire_unquote_unqS]
+  exact respellStr_meaning_strict o hu raw (by simpa using hj)
 
-/-- Full statements over ALL string options (open part: EscapeForHTML / EscapeForJS, where the output literal is not
-the RFC 8785 spelling), validated by the harness predicates and by the `fmt formatv` correspondence: the output tokens are the input tokens with every
+/-- the name key of a literal of the selected mode is its unquoted text (slice quote/wire, Lemmas/GlueNameKey.lean) -/
+theorem nameKey_unquote : NameKeyUnquote := JsonV.Lemmas.GlueNameKey.fmt_nameKey_unquote
+
+/-- `formatV_respell` without any hypothesis on the names: both duplicate policies. -/
+theorem formatV_respell_all (o : FOpts) (hR : o.respellable) (hw : o.ws.Blank) (b b' : Bytes)
+    (h : formatV o b = some b') :
+    ∃ ts, tokenizeV o b = some ts ∧ tokenizeV o b' = some (ts.map (respellTok o)) ∧
+      (∀ k ∈ ts, match k with
+        | Tok.str raw => respellTok o k = .str (respellStr o raw) ∧
+            (Model.Wire.unquote (respellStr o raw)).1 = (Model.Wire.unquote raw).1
+        | k => respellTok o k = k) ∧
+      formatV o b' = some b' :=
+  formatV_respell o hR hw (Or.inr nameKey_unquote) b b' h
+
+/-- **Fixed point for `Value.Format` with the default options** (strict UTF-8, no duplicates, strings respelled). -/
+theorem format_default_idem (w : WsOpts) (hw : w.Blank) (b b' : Bytes) (h : formatV { ws := w } b = some b') :
+    formatV { ws := w } b' = some b' := by
+  obtain ⟨_, _, _, _, hid⟩ := formatV_respell_all { ws := w } (Or.inl ⟨rfl, rfl⟩) hw b b' h
+  exact hid
+
+/-- Full statements over ALL string options (open part: PreserveRawStrings together with EscapeForHTML / EscapeForJS —
+the escape loop over the raw literal: slice C11 proves its meaning under strict UTF-8 (`reformat_meaning_strict`), but
+not yet that its output is again a string literal and a fixed point of the loop), validated by the harness predicates and by the `fmt formatv` correspondence: the output tokens are the input tokens with every
 string replaced by a literal of the same unescaped value, and formatting is idempotent. -/
 def formatV_meaning_full : Prop :=
   ∀ (o : FOpts) (b b' : Bytes), o.ws.Blank → formatV o b = some b' →
